@@ -91,6 +91,7 @@ InterpFails(c, e) ==
                    THEN (IF e.nopath \/ IsPathLength(e.dab, e.plen, tol) THEN {} ELSE {<<"distance-is-path-length", "">>})
                         \cup (IF AllSet(e.sameP) THEN {} ELSE {<<"point-of-computed-path", "">>})
                         \cup (IF e.nopath \/ NoJumps(e.cks, e.chord3, e.dab3, c.lip, c.tol3) THEN {} ELSE {<<"no-jumps", "">>})
+                        \cup (IF AllSet(e.yin) THEN {} ELSE {<<"heading-in-range", "">>})
                         \* (own tags for a pitch a hair beyond the range and one far beyond it: more than a milliradian)
                         \cup (IF PitchInRange(e.pex, c.res) THEN {}
                               ELSE {<<"pitch-in-range", IF PitchInRange(e.pex, 1000000) THEN "slight" ELSE "gross">>})
